@@ -61,6 +61,53 @@ Definition experiment : Type := list trial.
 Definition g_average (g : generation) : F * F * F :=
   (F_mean N true (g_fitness g), F_mean N true (g_age g), F_mean N true (g_complexity g)).
 
+(* Generation.FillPopulationStatistics: a population is projected to its species in order, a
+   species to its age and its organisms in their order before the call.  The in-place
+   sort.Sort(sort.Reverse(Organisms)) followed by Organisms[0] is an oracle-checked choice as in
+   BestOrganism below (position [k] in the order before the call).
+     maxFitness := float64(math.MinInt64)
+     for i, sp := range pop.Species { Age[i] = float64(sp.Age); sort; Complexity[i] = float64(complexity(sp.Organisms[0]));
+       Fitness[i] = sp.Organisms[0].Fitness
+       if !g.Solved { if sp.Organisms[0].Fitness > maxFitness { maxFitness = ...; g.Champion = sp.Organisms[0] } } } *)
+Record species : Type := { s_age : Z; s_orgs : list organism }.
+
+Definition org_less (a b : organism) : bool :=   (* genetics.Organisms.Less(i, j) on the projections *)
+  if n_ltb N (o_fitness a) (o_fitness b) then true
+  else if n_eqb N (o_fitness a) (o_fitness b) then n_ltb N (o_hfit a) (o_hfit b)
+  else false.
+
+Definition species_best (s : species) (k : Z) : res organism :=
+  match s_orgs s with
+  | [] => GoPanic panic_index                      (* Organisms[0] of an empty species *)
+  | [o] => Ok o
+  | os =>
+    match nth_error os (Z.to_nat k) with
+    | Some o => if (0 <=? k) && forallb (fun o' => negb (org_less o o')) os then Ok o else BadOracle
+    | None => BadOracle
+    end
+  end.
+
+Definition min_int64 : Z := -9223372036854775808.
+
+Fixpoint fill_loop (solved : bool) (ss : list species) (ks : list Z) (maxf : F) (champ : option organism)
+  : res (list F * list F * list F * option organism) :=
+  match ss with
+  | [] => Ok ([], [], [], champ)
+  | s :: ss' =>
+    do b <- species_best s (match ks with k :: _ => k | [] => 0 end);
+    let '(maxf', champ') :=
+      if solved then (maxf, champ)
+      else if n_ltb N maxf (o_fitness b) then (o_fitness b, Some b) else (maxf, champ) in
+    do r <- fill_loop solved ss' (tl ks) maxf' champ';
+    let '(ages, cplx, fits, c) := r in
+    Ok (ofZ (s_age s) :: ages, ofZ (o_cplx b) :: cplx, o_fitness b :: fits, c)
+  end.
+
+(* result: Diversity, Age, Complexity, Fitness, Champion; [champ0] is g.Champion before the call *)
+Definition g_fill (solved : bool) (champ0 : option organism) (ss : list species) (ks : list Z)
+  : res (Z * (list F * list F * list F * option organism)) :=
+  do r <- fill_loop solved ss ks (ofZ min_int64) champ0; Ok (Z.of_nat (length ss), r).
+
 (* Generation.ChampionComplexity *)
 Definition g_champion_complexity (g : generation) : Z :=
   match g_champ g with None => max_int | Some o => o_cplx o end.
@@ -145,12 +192,6 @@ Definition t_winner_statistics (t : trial) : (Z * Z * Z * Z) * option generation
       end
     else ((-1, -1, -1, -1), None)
   end.
-
-(* genetics.Organisms.Less(i, j) on the projections *)
-Definition org_less (a b : organism) : bool :=
-  if n_ltb N (o_fitness a) (o_fitness b) then true
-  else if n_eqb N (o_fitness a) (o_fitness b) then n_ltb N (o_hfit a) (o_hfit b)
-  else false.
 
 (* sort.Sort(sort.Reverse(orgs)); orgs[0]  with the index of the winner as checked oracle *)
 Fixpoint all_some {A} (l : list (option A)) : option (list A) :=
@@ -320,3 +361,4 @@ Arguments g_solved {F}. Arguments g_champ {F}. Arguments g_fitness {F}. Argument
 Arguments g_complexity {F}. Arguments g_diversity {F}. Arguments g_wnodes {F}. Arguments g_wgenes {F}.
 Arguments g_wevals {F}. Arguments g_duration {F}.
 Arguments t_gens {F}. Arguments t_winner {F}. Arguments t_duration {F}.
+Arguments s_age {F}. Arguments s_orgs {F}.
